@@ -28,6 +28,15 @@ theorem backTell_q {e : Env} (hq : Quiet e) (s : FS) :
       ⟨s.data, ((s.pos : Int) + -8).toNat, s.ops + 1 + 1, .tell :: .seek ((s.pos : Int) + -8).toNat :: s.log⟩) := by
   simp [backTell, bind_run, fseekRel_q hq, ftell_q hq]
 
+theorem seekBack_q_ok {e : Env} (hq : Quiet e) (off : Int) (s : FS) (h : ¬ ((s.pos : Int) < off)) :
+    seekBack off e s = (.ok (), ⟨s.data, ((s.pos : Int) + -off).toNat, s.ops + 1 + 1,
+      .seek ((s.pos : Int) + -off).toNat :: .tell :: s.log⟩) := by
+  simp [seekBack, bind_run, ftell_q hq, h, fseekRel_q hq]
+
+theorem seekBack_q_fail {e : Env} (hq : Quiet e) (off : Int) (s : FS) (h : (s.pos : Int) < off) :
+    seekBack off e s = (.error .io, ⟨s.data, s.pos, s.ops + 1, .tell :: s.log⟩) := by
+  simp [seekBack, bind_run, ftell_q hq, h, raise_run]
+
 theorem getSize_q' {e : Env} (hq : Quiet e) (s : FS) :
     getSize e s = (.ok s.data.length,
       ⟨s.data, s.pos, s.ops + 1 + 1 + 1 + 1, .seek s.pos :: .tell :: .seekEnd :: .tell :: s.log⟩) := by
@@ -51,6 +60,7 @@ def viaV1 (f : Bytes) : Option Nat :=
   let n := f.length
   if n < 128 then none
   else if readAt f (n - 128) 3 != tagMagic then none
+  else if n - 125 < 35 then none
   else
     let p2 := (n - 125) - 35
     if isApeAt f p2 then some p2
@@ -62,12 +72,15 @@ def viaV1 (f : Bytes) : Option Nat :=
         match int6 (readAt f p4 6) with
         | none => none
         | some off =>
-          let p5 := (p4 + 6) - (32 + off + 6)
-          if isApeAt f p5 then some p5 else none
+          if p4 + 6 < 32 + off + 6 then none
+          else
+            let p5 := (p4 + 6) - (32 + off + 6)
+            if isApeAt f p5 then some p5 else none
 
 theorem findMetadata_eq (f : Bytes) :
     findMetadata f =
-      if isApeAt f (f.length - 32) then .footer (f.length - 32)
+      if f.length < 32 then .nothing
+      else if isApeAt f (f.length - 32) then .footer (f.length - 32)
       else match viaV1 f with
         | some p => .footer p
         | none => if isApeAt f 0 then .headerAtStart else .nothing := by
@@ -94,7 +107,18 @@ theorem viaV1M_q {e : Env} (hq : Quiet e) (s : FS) (hint : LyricsSizeOK s.data) 
   by_cases ht : (readAt s.data (n - 128) 3 != tagMagic) = true
   · simp only [ht, ↓reduceIte, pure_run]
     exact ⟨_, (by rfl), Or.inl rfl⟩
-  simp only [ht, Bool.false_eq_true, ↓reduceIte, bind_run, fseekRel_q hq, readIsApe_q hq]
+  simp only [ht, Bool.false_eq_true, ↓reduceIte, bind_run]
+  -- _seek_back(35) from n - 125
+  by_cases h35 : n - 125 < 35
+  · rw [seekBack_q_fail hq]
+    · simp only [h35, ↓reduceIte]
+      exact ⟨_, (by rfl), Or.inr ⟨trivial, rfl⟩⟩
+    · dsimp only; omega
+  rw [seekBack_q_ok hq]
+  rotate_left
+  · dsimp only; omega
+  dsimp only
+  simp only [h35, ↓reduceIte, bind_run, readIsApe_q hq]
   have e2 : (((n - 128 + 3 : Nat) : Int) + -35).toNat = n - 125 - 35 := by omega
   rw [e2]
   have l8 : (readAt s.data (n - 125 - 35) 8).length = 8 := length_readAt_le _ _ _ (by omega)
@@ -129,8 +153,19 @@ theorem viaV1M_q {e : Env} (hq : Quiet e) (s : FS) (hint : LyricsSizeOK s.data) 
     simp only [Option.map_none, raise_run]
     exact ⟨_, (by rfl), Or.inr ⟨trivial, rfl⟩⟩
   | some off =>
-    simp only [Option.map_some, bind_run, fseekRel_q hq, readIsApe_q hq]
-    have e5 : (((n - 125 - 35 + 8 + 15 + 9 - 15 + 6 : Nat) : Int) + (-32 - Int.ofNat off - 6)).toNat =
+    simp only [Option.map_some, bind_run]
+    -- _seek_back(32 + off + 6) from behind the size field
+    by_cases hoff : n - 125 - 35 + 8 + 15 + 9 - 15 + 6 < 32 + off + 6
+    · rw [seekBack_q_fail hq]
+      · simp only [hoff, ↓reduceIte]
+        exact ⟨_, (by rfl), Or.inr ⟨trivial, rfl⟩⟩
+      · dsimp only; simp only [Int.ofNat_eq_natCast]; omega
+    rw [seekBack_q_ok hq]
+    rotate_left
+    · dsimp only; simp only [Int.ofNat_eq_natCast]; omega
+    dsimp only
+    simp only [hoff, ↓reduceIte, bind_run, readIsApe_q hq]
+    have e5 : (((n - 125 - 35 + 8 + 15 + 9 - 15 + 6 : Nat) : Int) + -(32 + Int.ofNat off + 6)).toNat =
         n - 125 - 35 + 8 + 15 + 9 - 15 + 6 - (32 + off + 6) := by
       simp only [Int.ofNat_eq_natCast]; omega
     rw [e5]
@@ -147,7 +182,19 @@ theorem findMetadataM_q {e : Env} (hq : Quiet e) (s : FS) (hint : LyricsSizeOK s
     ∃ s', findMetadataM e s = (.ok (findMetadata s.data), s') ∧ s'.data = s.data := by
   unfold findMetadataM
   rw [findMetadata_eq]
-  simp only [bind_run, tryCatch, fseekFromEnd_q hq, pure_run, Bool.not_true, Bool.false_eq_true, ↓reduceIte, readIsApe_q hq]
+  simp only [bind_run, fseekEnd_q hq, tryCatch]
+  by_cases h32 : s.data.length < 32
+  · rw [seekBack_q_fail hq]
+    · simp only [h32, ↓reduceIte, PyErr.isIO, pure_run, Bool.not_false]
+      exact ⟨_, rfl, rfl⟩
+    · dsimp only; omega
+  rw [seekBack_q_ok hq]
+  rotate_left
+  · dsimp only; omega
+  dsimp only
+  simp only [h32, ↓reduceIte, bind_run, pure_run, Bool.not_true, Bool.false_eq_true, readIsApe_q hq]
+  have e0 : (((s.data.length : Nat) : Int) + -32).toNat = s.data.length - 32 := by omega
+  rw [e0]
   by_cases ha : isApeAt s.data (s.data.length - 32) = true
   · simp only [ha, ↓reduceIte, bind_run, backTell_q hq, pure_run, isApeAt_len _ _ ha]
     have : (((s.data.length - 32 + 8 : Nat) : Int) + -8).toNat = s.data.length - 32 := by omega
@@ -155,11 +202,12 @@ theorem findMetadataM_q {e : Env} (hq : Quiet e) (s : FS) (hint : LyricsSizeOK s
     exact ⟨_, rfl, rfl⟩
   · simp only [ha, Bool.false_eq_true, ↓reduceIte, bind_run]
     obtain ⟨s1, hd1, hcase⟩ := viaV1M_q hq
-      ⟨s.data, s.data.length - 32 + (readAt s.data (s.data.length - 32) 8).length, s.ops + 1 + 1, .read 8 :: .seekEnd :: s.log⟩ hint
+      ⟨s.data, s.data.length - 32 + (readAt s.data (s.data.length - 32) 8).length, s.ops + 1 + 1 + 1 + 1,
+        .read 8 :: .seek (s.data.length - 32) :: .tell :: .seekEnd :: s.log⟩ hint
     have hrun : ∃ s2, s2.data = s.data ∧
         tryCatch viaV1M PyErr.isIO (fun _ => (pure none : FileM (Option Nat))) e
-          ⟨s.data, s.data.length - 32 + (readAt s.data (s.data.length - 32) 8).length, s.ops + 1 + 1,
-            .read 8 :: .seekEnd :: s.log⟩ = (.ok (viaV1 s.data), s2) := by
+          ⟨s.data, s.data.length - 32 + (readAt s.data (s.data.length - 32) 8).length, s.ops + 1 + 1 + 1 + 1,
+            .read 8 :: .seek (s.data.length - 32) :: .tell :: .seekEnd :: s.log⟩ = (.ok (viaV1 s.data), s2) := by
       unfold tryCatch
       rcases hcase with h | ⟨hn, h⟩
       · rw [h]; exact ⟨s1, hd1, rfl⟩
@@ -182,7 +230,13 @@ theorem fixBrokenM_q {e : Env} (hq : Quiet e) (f : Bytes) (fuel : Nat) :
     unfold fixBrokenM fixBroken
     by_cases h0 : start = 0
     · simp only [h0, ↓reduceIte, pure_run]; exact ⟨s, rfl, hd⟩
-    · simp only [h0, ↓reduceIte, bind_run, tryCatch, fseekRel_q hq, pure_run, Bool.not_true, Bool.false_eq_true, readIsApe_q hq]
+    · simp only [h0, ↓reduceIte, bind_run, tryCatch]
+      by_cases h24 : start < 24
+      · rw [seekBack_q_fail hq _ _ (by omega)]
+        simp only [h24, ↓reduceIte, PyErr.isIO, pure_run, Bool.not_false]
+        exact ⟨_, rfl, hd⟩
+      rw [seekBack_q_ok hq _ _ (by omega)]
+      simp only [h24, ↓reduceIte, bind_run, pure_run, Bool.not_true, Bool.false_eq_true, readIsApe_q hq]
       have e1 : ((s.pos : Int) + -24).toNat = start - 24 := by omega
       rw [e1, hd]
       by_cases ha : isApeAt f (start - 24) = true
